@@ -394,8 +394,6 @@ class ContractMixin:
         specenv.update(ghosts)
         env = self.contract_env(c, fi.module, specenv)
         self.const_facts(st)
-        for v in list(loc.values()) + list(envv.values()):
-            self.assume_class_invariants(st, v)
         self.run_lets(st, c, env, 'pre')
         # narrow parameter hints from `requires(isinstance(p, C))` / is_str(...) clauses
         for i, call in enumerate(c.calls('requires')):
@@ -403,6 +401,8 @@ class ContractMixin:
             st.assume(self.spec_bool(st, self.sev(st, rest[0], env, c.module)))
             self.narrow_from_requires(st, rest[0], loc, envv, env, c)
         self.const_facts(st)
+        for v in list(loc.values()) + list(envv.values()):
+            self.assume_class_invariants(st, v)
         # vacuity guard: the assumed pre-state must be satisfiable
         self.add_obligation('cover', st, TRUE, 'pre_satisfiable')
         pre = st.heap_snapshot()
